@@ -6,6 +6,7 @@ import (
 	"errors"
 	"io"
 	"strconv"
+	"unicode"
 
 	alignio "github.com/evolbioinfo/goalign/io"
 )
@@ -41,6 +42,10 @@ func (s *Scanner) read() rune {
 	ch, _, err := s.r.ReadRune()
 	if err != nil {
 		return eof
+	}
+	if ch == eof {
+		// A NUL character in the file is not the end of the file
+		return unicode.ReplacementChar
 	}
 	return ch
 }
